@@ -38,6 +38,7 @@ def fingerprints(prop: str, n: int, workers: int, tier: str = "quick", batch: in
         from dst.c20 import reach
 
         reach.compute()
+        reach.clusters()
 
     idx = list(range(n))
     if prop == "C09":  # half systematic prefix, half random histories (beyond the prefix)
